@@ -35,6 +35,8 @@ def gen_cases(tier, seed):
     cases = []
     for b in range(0, n, per):
         cases.append({"kind": "histories", "seed": seed * 1000003 + b, "count": per})
+    if tier == "thorough":
+        cases.append({"kind": "repo-tests", "seed": seed, "_cost": 10 ** 6})
     return cases
 
 
@@ -290,6 +292,14 @@ def _one_history(rng, res, DrawSet):
 
 def run_case(case):
     import gcmpy.tools.draw_set as ds
+    if case.get("kind") == "repo-tests":
+        from ..repotests import run as _run_repo_tests
+        res = Result()
+        _run_repo_tests(ID, res)
+        res.nontrivial = True
+        res.digest = "repo-tests"
+        res.sample = {"kind": "repo-tests", "notes": res.notes[:2]}
+        return res
     install_invariant()
     res = Result()
     rng = random.Random(case["seed"])
